@@ -124,8 +124,14 @@ func c10Stream(r *fw.Rand, mtu int) (calls []c10Call, expect [][]byte, pairs map
 					}
 				}
 				lastSPS, lastPPS = sps, pps
-				all = append(all, sps, pps)
-				kinds = append(kinds, 'S', 'P')
+				if r.Chance(1, 6) {
+					// the pair handed in as PPS, SPS: both are parameter sets held for the next unit; in which order the two come out is not judged
+					all = append(all, pps, sps)
+					kinds = append(kinds, 'Q', 'T')
+				} else {
+					all = append(all, sps, pps)
+					kinds = append(kinds, 'S', 'P')
+				}
 				needSlice = true
 			default:
 				t := c10SliceTypes[r.Intn(len(c10SliceTypes))]
@@ -170,6 +176,16 @@ func c10Stream(r *fw.Rand, mtu int) (calls []c10Call, expect [][]byte, pairs map
 		}
 		if kinds[i] == 'S' {
 			pairs[len(expect)] = true
+		}
+		if kinds[i] == 'Q' {
+			// handed in as PPS, SPS: expected as SPS, PPS (the order of a STAP-A); the comparison accepts the other order too
+			pairs[len(expect)] = true
+			pairs[len(expect)+1] = true // (marks the pair as handed in PPS first: index of its second member is flagged too)
+			expect = append(expect, all[i+1], u)
+			continue
+		}
+		if kinds[i] == 'T' {
+			continue
 		}
 		expect = append(expect, u)
 	}
@@ -321,6 +337,15 @@ func c10Pay(c *fw.Ctx, i int) {
 		c.Fail(sig, fmt.Sprintf("%d NAL units delivered, %d expected", len(units), len(expect)), wit())
 		return
 	}
+	// a pair handed in as PPS, SPS (both of its indices are flagged) may come out in either order
+	ppsFirst := map[int]bool{}
+	for k := 0; k+1 < len(units); k++ {
+		if pairs[k] && pairs[k+1] && bytes.Equal(units[k].Data, expect[k+1]) && bytes.Equal(units[k+1].Data, expect[k]) {
+			expect[k], expect[k+1] = expect[k+1], expect[k] // from here on the expected order is the delivered one
+			ppsFirst[k], ppsFirst[k+1] = true, true
+			c.Count("pps_first_pairs_delivered_pps_first", 1)
+		}
+	}
 	heads := map[int]bool{}
 	for k, u := range units {
 		if !bytes.Equal(u.Data, expect[k]) {
@@ -346,7 +371,7 @@ func c10Pay(c *fw.Ctx, i int) {
 				return
 			}
 		}
-		if stapA && (t == 7 || t == 8) && pairs[k-int(t-7)] {
+		if stapA && (t == 7 || t == 8) && !ppsFirst[k] && pairs[k-int(t-7)] {
 			// SPS at k (t==7) or PPS at k (t==8, pair starts at k-1)
 			start := k - int(t-7)
 			fits := 5+len(expect[start])+len(expect[start+1]) <= mtuOf[u.First] // the MTU of the call that sent them
